@@ -571,30 +571,82 @@ func runC14(c *Ctx) {
 	if fd := p.FuncDecl(pkg, "counter", "Monitor"); fd == nil {
 		r.Unresolved("counter/condition-memory", pkg+".counter.Monitor", "method not found")
 	} else {
+		// the compute closure: in Monitor itself, or in the subscriber when that is a method of an
+		// input-state struct handed to OnUpdate as a method value (the remembered condition is then a
+		// field of that struct instead of a captured variable)
 		var lit *ast.FuncLit
-		ast.Inspect(fd.Body, func(n ast.Node) bool {
-			if cl, ok := n.(*ast.CallExpr); ok && strings.HasSuffix(exprKey(cl.Fun), ".Compute") && len(cl.Args) == 1 {
-				if l, ok := cl.Args[0].(*ast.FuncLit); ok {
-					lit = l
-				}
+		scopes := []ast.Node{fd.Body}
+		for _, cb := range callbacksIn(p, info, fd.Body) {
+			if cb.Decl != nil && cb.Recv != nil {
+				scopes = append(scopes, cb.Body)
 			}
-			return true
-		})
+		}
+		for _, sc := range scopes {
+			ast.Inspect(sc, func(n ast.Node) bool {
+				if cl, ok := n.(*ast.CallExpr); ok && strings.HasSuffix(exprKey(cl.Fun), ".Compute") && len(cl.Args) == 1 {
+					if l, ok := cl.Args[0].(*ast.FuncLit); ok {
+						lit = l
+					}
+				}
+				return true
+			})
+		}
 		key := pkg + ".counter.Monitor"
 		if lit == nil {
 			r.Fail("counter/condition-memory", key, p.posStr(fd.Pos()), "no compute closure found")
 		} else {
 			lf := newFuncCFG(p, info, lit.Body, key)
-			changed := lf.RelEdges(func(rel Rel) bool {
-				return rel.Op == "!=" && ((rel.L == "conditionIsTrue" && rel.R == "conditionWasTrue") || (rel.R == "conditionIsTrue" && rel.L == "conditionWasTrue"))
+			// by role: the fresh condition value is the variable bound to a call of the counter's condition;
+			// the remembered one is what it is compared with (state declared outside the closure); the
+			// count is the closure's parameter
+			var fresh, cur types.Object
+			if ps := litParamObjs(info, lit); len(ps) == 1 {
+				cur = ps[0]
+			}
+			ast.Inspect(lit.Body, func(n ast.Node) bool {
+				if as, ok := n.(*ast.AssignStmt); ok && len(as.Lhs) == 1 && len(as.Rhs) == 1 {
+					if cl, ok := ast.Unparen(as.Rhs[0]).(*ast.CallExpr); ok && fieldSel(info, cl.Fun, "condition") {
+						fresh = objOfIdent(info, as.Lhs[0])
+					}
+				}
+				return true
+			})
+			isFresh := func(e ast.Expr) bool { return fresh != nil && objOfIdent(info, e) == fresh }
+			memKey := ""
+			var changed []Edge
+			lf.forEachEdgeFact(func(e Edge, b *cfg.Block, ft fact) {
+				be, ok := ast.Unparen(ft.Atom).(*ast.BinaryExpr)
+				if !ok || (be.Op != token.NEQ && be.Op != token.EQL) {
+					return
+				}
+				var other ast.Expr
+				switch {
+				case isFresh(be.X):
+					other = be.Y
+				case isFresh(be.Y):
+					other = be.X
+				default:
+					return
+				}
+				ro := rootObj(info, other)
+				if ro == nil || (ro.Pos() >= lit.Pos() && ro.Pos() <= lit.End()) {
+					return // not state that outlives one invocation
+				}
+				if memKey != "" && memKey != exprKey(other) {
+					return
+				}
+				memKey = exprKey(other)
+				if (be.Op == token.NEQ) == ft.Pol {
+					changed = append(changed, e)
+				}
 			})
 			isMem := func(n ast.Node) bool {
 				as, ok := n.(*ast.AssignStmt)
-				return ok && len(as.Lhs) == 1 && exprKey(as.Lhs[0]) == "conditionWasTrue" && exprKey(as.Rhs[0]) == "conditionIsTrue"
+				return ok && len(as.Lhs) == 1 && len(as.Rhs) == 1 && memKey != "" && exprKey(as.Lhs[0]) == memKey && isFresh(as.Rhs[0])
 			}
 			isCount := func(n ast.Node) bool {
 				s, ok := n.(*ast.IncDecStmt)
-				return ok && exprKey(s.X) == "currentValue"
+				return ok && cur != nil && objOfIdent(info, s.X) == cur
 			}
 			ok := len(changed) > 0
 			for _, pt := range append(lf.Find(isMem), lf.Find(isCount)...) {
@@ -609,10 +661,10 @@ func runC14(c *Ctx) {
 					}
 				}
 			}
-			incT, _ := lf.CondEdges(func(e ast.Expr) bool { return exprKey(e) == "conditionIsTrue" })
+			incT, _ := lf.CondEdges(isFresh)
 			for _, pt := range lf.Find(func(n ast.Node) bool {
 				s, isID := n.(*ast.IncDecStmt)
-				return isID && s.Tok == token.INC && exprKey(s.X) == "currentValue"
+				return isID && s.Tok == token.INC && isCount(n)
 			}) {
 				if _, only := lf.OnlyThroughEdges(pt, incT); !only {
 					ok = false
